@@ -229,8 +229,8 @@ def canon(fn: ast.AST) -> str:
     for n in ast.walk(fn):
         if isinstance(n, ast.Name) and isinstance(n.ctx, ast.Store):
             local.add(n.id)
-        if isinstance(n, ast.AnnAssign) and n.value is not None:
-            pass
+        if isinstance(n, ast.arg) and n is not fn:
+            local.add(n.arg)  # parameters of nested functions / lambdas
     if isinstance(fn, (ast.FunctionDef, ast.AsyncFunctionDef)):
         fn.decorator_list = []
         fn.returns = None
